@@ -92,10 +92,12 @@ func runC11(c *Check) {
 				}
 			}
 			okRange := false
+			var hdr ssa.Instruction
 			if bo, isB := idx.(*ssa.BinOp); isB && ok {
 				// loop bound = len(snapshot) where snapshot is a lookup of the persisted log
 				for _, ref := range *bo.Referrers() {
 					if cmp, isC := ref.(*ssa.BinOp); isC && cmp.Op == token.LSS && cmp.X == ssa.Value(bo) {
+						hdr = cmp
 						if args, isL := IsBuiltinCall(cmp.Y, "len"); isL {
 							if e, isE := firstOrigin(args[0]).(*ssa.Extract); isE {
 								if lk, isLk := e.Tuple.(*ssa.Lookup); isLk && r.isPers(lk.X) {
@@ -110,6 +112,22 @@ func runC11(c *Check) {
 			}
 			c.Report(ok && okRange, P+".O3", "REPLAY-ALL", R, g.Pos(), "go deliver", "every element of the topic's persisted log is replayed (full ascending range over the snapshot taken under the lock)")
 			c.Report(InLoop(g) && idx != nil && !ReachWithout(idx.(ssa.Instruction), idx.(ssa.Instruction), g) && !ReachWithout(g, g, idx.(ssa.Instruction)), P+".O3", "REPLAY-ONCE", R, g.Pos(), "go deliver", "exactly one deliver goroutine per persisted message")
+			// the loop is not skipped when there is something to replay: every path to the registration passes the
+			// loop's head, or the edge on which the lookup found no log for the topic
+			if hdr != nil {
+				_, absent := BoolEdges(R, func(x ssa.Value) bool {
+					e, isE := x.(*ssa.Extract)
+					if !isE || e.Index != 1 {
+						return false
+					}
+					lk, isLk := e.Tuple.(*ssa.Lookup)
+					return isLk && lk.CommaOk && r.isPers(lk.X)
+				})
+				re := ReachEntry(R, NewCut().AddInstrs(hdr).AddEdges(absent...))
+				for _, ad := range Callers([]*ssa.Function{R}, r.AddSub) {
+					c.Report(!re[ad], P+".O3", "REPLAY-NOT-SKIPPED", R, g.Pos(), "go deliver", "the replay loop is entered whenever the topic has a persisted log: the registration is reached only through the loop or through the edge on which the lookup found nothing")
+				}
+			}
 			// for this subscription
 			okSub := AllOrigins(g.Call.Args[0], func(v ssa.Value) bool {
 				a, isA := v.(*ssa.Alloc)
